@@ -1,6 +1,7 @@
 import Driver.Util
 import Driver.Port
 import Driver.Middleware
+import Driver.Pure
 
 /-! One request per line on stdin, one response per line on stdout.  Unknown or malformed
 requests answer `bad-op` (never a default value). -/
@@ -9,6 +10,8 @@ def dispatch (ws : List String) : String :=
   match ws with
   | "port" :: _ | "split" :: _ | "atoi" :: _ | "join" :: _ | "c20holds" :: _ => (Driver.Port.handle ws).getD "bad-op"
   | "mw" :: _ | "mwspec" :: _ | "c15holds" :: _ => (Driver.Middleware.handle ws).getD "bad-op"
+  | "equal" :: _ | "c13holds" :: _ | "member" :: _ | "c11memberholds" :: _ | "iscancel" :: _ | "plan" :: _
+  | "planany" :: _ | "c16planholds" :: _ | "known" :: _ => (Driver.Pure.handle ws).getD "bad-op"
   | _ => "bad-op"
 
 partial def loop (h : IO.FS.Stream) (out : IO.FS.Stream) : IO Unit := do
